@@ -105,6 +105,9 @@ func runC02Scenario(sc c02Scenario) c02Result {
 			if e.Key >= 1000 || !e.Cause.IsEviction() {
 				return
 			}
+			if sc.Expiry == 2 && e.Value < 10000 {
+				return // the dead entries left behind by the prelude were never part of the history
+			}
 			log(c02Ev{C: 0, T: "auto", Op: e.Cause.String(), K: e.Key, V: e.Value, RV: -1, Saw: -1})
 		},
 	}
@@ -114,8 +117,22 @@ func runC02Scenario(sc c02Scenario) c02Result {
 	if sc.Expiry == 1 {
 		o.ExpiryCalculator = ExpiryWriting[int, int](time.Hour)
 	}
+	if sc.Expiry == 2 {
+		// per-value lifetimes: odd values live for an hour, even values get no deadline at all (the calculator answers 0)
+		o.ExpiryCalculator = c02ParityCalc{}
+	}
 	c := Must(o)
 	defer c.StopAllGoroutines()
+	if sc.Expiry == 2 {
+		// every key starts with an EXPIRED entry that no maintenance run has removed: absent for every operation of the history,
+		// but the first write of the key finds a dead node in the table
+		for k := 0; k < sc.Keys; k++ {
+			c.Set(k, 1+2*k)
+		}
+		c.CleanUp()
+		time.Sleep(2 * time.Millisecond)
+		clk.now.Add(int64(2 * time.Hour))
+	}
 	var loads, churnNC atomic.Int64
 	loaderOf := func(cid int) Loader[int, int] {
 		return LoaderFunc[int, int](func(ctx context.Context, k int) (int, error) {
@@ -402,3 +419,20 @@ func TestVerifC02(t *testing.T) {
 		}
 	}
 }
+
+// c02ParityCalc: odd values expire an hour after they were written, even values never (a non-positive answer leaves a new entry without deadline)
+type c02ParityCalc struct{}
+
+func (c02ParityCalc) ExpireAfterCreate(e Entry[int, int]) time.Duration {
+	if e.Value%2 == 0 {
+		return 0
+	}
+	return time.Hour
+}
+func (p c02ParityCalc) ExpireAfterUpdate(e Entry[int, int], _ int) time.Duration {
+	if e.Value%2 == 0 {
+		return time.Duration(1<<63 - 1)
+	}
+	return time.Hour
+}
+func (c02ParityCalc) ExpireAfterRead(e Entry[int, int]) time.Duration { return e.ExpiresAfter() }
